@@ -8,6 +8,7 @@
 //! overwritten (hook H2) and the verdict of the real `MockProver::verify()` is printed instead.
 
 mod dump;
+mod edwards;
 mod foreign;
 mod native;
 mod zkirfam;
@@ -123,6 +124,15 @@ fn main() {
                 "c25519fq" => go!(midnight_curves::curve25519::Scalar),
                 f => panic!("unknown emulated field {f}"),
             }
+        }
+        "edwards" => {
+            let io = native::IoLog::default();
+            let circuit = edwards::EdwardsCircuit { spec: spec.clone(), io: io.clone() };
+            let _ = MockProver::<F>::run(k, &circuit, vec![vec![], vec![]]).expect("synthesis (pass 1)");
+            let rec: Vec<(bool, F)> = io.0.borrow().clone();
+            let pi: Vec<F> = rec.iter().map(|x| x.1).collect();
+            let prover = MockProver::<F>::run(k, &circuit, vec![vec![], pi]).expect("synthesis (pass 2)");
+            finish(prover, rec, replay, json!({"family": "edwards", "op": spec.op, "params": spec.params, "curve_d": edwards::curve_d_hex()}));
         }
         "zkir" => {
             let path = spec.params.get("prog").expect("p.prog=<file>").clone();
